@@ -11,7 +11,7 @@ from __future__ import annotations
 from .. import gamedata, gen, lang
 from ..rng import Chooser
 from .common import (ModelGap, Obs, Violation, World, base_result, blueprint_probes,
-                     compile_case, fmt_sigs, merge_fired, net_signature, probe, settle_bound,
+                     compile_case, fmt_sigs, input_inits, bind_input_aliases, merge_fired, net_signature, probe, settle_bound,
                      skeleton)
 
 from ..diagnose import crosstalk_sites
@@ -147,9 +147,11 @@ def check_outputs(obs: Obs, env: dict, outs: list[str], stmts_by_name: dict, res
         t = exp.type
         if t is None:
             t = label_type
+            if t == "bundle" or t in WILD:
+                continue   # a bare selection shares the bundle's anchor; nothing names its type
             if t is None or t in WILD or t == "signal-W":
                 raise Violation("bad-output-type", {"name": name, "label_type": label_type})
-        elif label_type is not None and label_type != t:
+        elif label_type is not None and label_type != t and label_type not in ("bundle",) + WILD:
             raise Violation(
                 "wrong-signal-type",
                 {"name": name, "expected_type": t, "label_type": label_type,
@@ -186,8 +188,8 @@ def run_case(case: dict) -> dict:
         interp = lang.Interp(stmts)
         outs = exported(stmts)
         by_name = {s[2]: s[3] for s in stmts if s[0] == "decl"}
-        vals = {i["name"]: i["init"] for i in case["inputs"]}
-        missing = [i["name"] for i in case["inputs"] if i["name"] not in obs.inputs]
+        vals = input_inits(case)
+        missing = bind_input_aliases(obs, case)
         if missing:
             probe(res, "input_without_combinator", len(missing))
         sites = crosstalk_sites(w, merge_groups(stmts, case["inputs"]),
